@@ -7,13 +7,17 @@ Import ListNotations.
 Open Scope Z_scope.
 
 Definition PREC := F.PtoP 80.
+(* absolute error budget per operation: one smallest NORMAL number. Results in the subnormal range are underflow, which
+   envelope E excludes; e.g. Beta's w = a*exp(v) overflows for tiny parameters and the crate returns exactly 0 where the
+   ideal value is a subnormal. *)
+Definition ceta (t : fty) : Z := match t with F32 => -126 | F64 => -1022 end.
 Definition FORKS : nat := 4.
 
 (* verdict codes: 0 = some explored path reproduces the crate (same number of words, value inside the
    rounding-inflated enclosure); 1 = no explored path does; 2 = not judged (undecidable comparisons beyond
    the fork budget, or an unbounded enclosure) *)
 Definition judge_real (t : fty) (outs : list (outc (expr * list Z))) (nwords : Z) (rm re : Z) (count : Z) : Z :=
-  let p := fprec t in let eta := feta t in
+  let p := fprec t in let eta := ceta t in
   let chk (o : outc (expr * list Z)) : Z :=
     match o with
     | OVal (e, rest) =>
@@ -28,7 +32,7 @@ Definition judge_real (t : fty) (outs : list (outc (expr * list Z))) (nwords : Z
   if existsb (Z.eqb 0) codes then 0 else if existsb (Z.eqb 2) codes then 2 else 1.
 
 Definition ccase (t : fty) (m : sampler expr) (words : list Z) (rm re count : Z) : Z :=
-  judge_real t (interpI PREC (fprec t) (feta t) (m words) FORKS) (Z.of_nat (length words)) rm re count.
+  judge_real t (interpI PREC (fprec t) (ceta t) (m words) FORKS) (Z.of_nat (length words)) rm re count.
 
 (* integer-valued samplers: the value must be equal *)
 Definition judge_int (outs : list (outc (Z * list Z))) (nwords : Z) (v count : Z) : Z :=
@@ -42,7 +46,7 @@ Definition judge_int (outs : list (outc (Z * list Z))) (nwords : Z) (v count : Z
   if existsb (Z.eqb 0) codes then 0 else if existsb (Z.eqb 2) codes then 2 else 1.
 
 Definition icase (t : fty) (m : sampler Z) (words : list Z) (v count : Z) : Z :=
-  judge_int (interpI PREC (fprec t) (feta t) (m words) FORKS) (Z.of_nat (length words)) v count.
+  judge_int (interpI PREC (fprec t) (ceta t) (m words) FORKS) (Z.of_nat (length words)) v count.
 
 (* diagnostics: the enclosures of all explored paths *)
 Definition cshow (t : fty) (m : sampler expr) (words : list Z) : list (option (I.type * Z)) :=
